@@ -8,12 +8,12 @@ Require Import ZifyBool.
 Lemma bridge_p_decode_cbpb r :
   match p_decode_cbpb r with Ok (_, r') => Ok (tt, r') | Err e => Err e | Panic p => Panic p | OutOfFuel => OutOfFuel end = decode_cbpb r.
 Proof.
-  unfold p_decode_cbpb, decode_cbpb. repeat (step_read; cbv zeta). 
+  unfold p_decode_cbpb, decode_cbpb. autounfold with pgenmb. repeat (step_read; cbv zeta; rewrite ?bind_assoc; cbn [bind]); try reflexivity.
 Qed.
 
 Lemma bridge_p_decode_dquant r : p_decode_dquant r = decode_dquant r.
 Proof.
-  unfold p_decode_dquant, decode_dquant. step_read. cbv zeta. change (2 ^ 2) with 4 in *.
+  unfold p_decode_dquant, decode_dquant. autounfold with pgenmb. step_read. cbv zeta. change (2 ^ 2) with 4 in *.
   cases_below v 4%nat; reflexivity.
 Qed.
 
